@@ -294,6 +294,11 @@ class Case:
         self.in_engine = True
         try:
             cs = self.cs
+            # an event manager that has not yet validated its root / done its first intake has not looked at
+            # anything: "nothing left to do" is only meaningful once every loop has really run once
+            for em in cs.emgrs:
+                if not getattr(em, "_root_validated", True) or getattr(em, "_first_do", False):
+                    return False
             return not cs.smgr.busy and not cs.emgrs[0].busy and not cs.emgrs[1].busy
         finally:
             self.in_engine = False
